@@ -606,8 +606,34 @@ def oracle(case, rng=None, limit_bits=12, samples=2000):
     if len(labels) != expected_len(call):
         return (f'{call[1] if call[0] == "mul" else SQ_FNS[call[1]]}: {len(labels)} result bits for widths '
                 f'{[len(x) for x in call[2:-1]]}, the property states {expected_len(call)}')
-    return check_values(call, labels, after['gates'], list(before['inputs']), rng, limit_bits, samples,
-                        c_before=c0, c_after=c, old_labels=[k for k, _, _ in before['gates']])
+    msg = check_values(call, labels, after['gates'], list(before['inputs']), rng, limit_bits, samples,
+                       c_before=c0, c_after=c, old_labels=[k for k, _, _ in before['gates']])
+    if msg:
+        return msg
+    return oracle_iterables(case, labels, after)
+
+
+def oracle_iterables(case, labels, after):
+    """the operands are annotated tp.Iterable[Label]: the same call with one-shot iterators (and with tuples) on a
+    fresh host must build the same gates and return the same labels"""
+    call = case['call']
+    if sum(len(x) for x in call[2:-1]) > 14:
+        return None
+    M, SQ = _mods()
+    for wrap, name in ((iter, 'one-shot iterators'), (tuple, 'tuples')):
+        c = ct.build_circuit(case['host'])
+        env.uuid_counter.n = case['k0'] - 1
+        try:
+            if call[0] == 'mul':
+                got = list(getattr(M, call[1])(c, wrap(list(call[2])), wrap(list(call[3])), big_endian=call[4]))
+            else:
+                got = list(getattr(SQ, SQ_FNS[call[1]])(c, wrap(list(call[2])), big_endian=call[3]))
+        except Exception as e:  # noqa: BLE001
+            return f'{call[1]}: operands given as {name} raise {type(e).__name__} (given as lists the call returns)'
+        if got != list(labels) or ct.dump_circuit(c) != after:
+            return (f'{call[1]}: operands given as {name} give another result than the same labels given as lists '
+                    f'({len(got)} result bits vs {len(labels)})')
+    return None
 
 
 def oracle_gen(case, rng, limit_bits=12, samples=2000):
